@@ -12,6 +12,8 @@ use crate::vocab;
 pub struct World {
     pub words: Vec<Vec<u8>>,
     pub eos: u32,
+    /// every end-of-sequence token (the primary one first)
+    pub eos_all: Vec<u32>,
     pub env: TokEnv,
     pub fac: ParserFactory,
 }
@@ -20,7 +22,15 @@ impl World {
     pub fn new(words: Vec<Vec<u8>>, eos: u32, canonical: bool, slices: Option<&[String]>) -> anyhow::Result<World> {
         let env = vocab::env_from_words(&words, eos, canonical);
         let fac = engine::factory(&env, slices, false)?;
-        Ok(World { words, eos, env, fac })
+        Ok(World { words, eos, eos_all: vec![eos], env, fac })
+    }
+    pub fn new_multi_eos(words: Vec<Vec<u8>>, eos_all: Vec<u32>, canonical: bool, slices: Option<&[String]>) -> anyhow::Result<World> {
+        let env = vocab::env_from_words_eos(&words, &eos_all, canonical);
+        let fac = engine::factory(&env, slices, false)?;
+        Ok(World { words, eos: eos_all[0], eos_all, env, fac })
+    }
+    pub fn is_eos(&self, t: u32) -> bool {
+        self.eos_all.contains(&t)
     }
     pub fn matcher(&self, g: &Gram) -> Matcher {
         engine::matcher(&self.fac, g)
